@@ -308,8 +308,10 @@ def weave_fn(src, container, name, nth, opts, subs, mode, sig_only=False):
         elif kind == 'exit':
             b.add(b.match_close(bo), body_text + '\n')
         elif kind == 'tail':
+            # start of the tail expression: after the last top-level `;` or block-closing `}` that is followed by
+            # something other than `else` / nothing
             cl = b.match_close(bo)
-            last = bo
+            cands = [bo]
             d = 0
             for i in range(bo + 1, cl):
                 if not b.mask[i]:
@@ -319,8 +321,16 @@ def weave_fn(src, container, name, nth, opts, subs, mode, sig_only=False):
                     d += 1
                 elif ch in '})]':
                     d -= 1
+                    if ch == '}' and d == 0:
+                        cands.append(i)
                 elif ch == ';' and d == 0:
-                    last = i
+                    cands.append(i)
+            last = bo
+            for cpos in reversed(cands):
+                rest = ''.join(c for k, c in enumerate(b.text[cpos + 1:cl]) if b.mask[cpos + 1 + k]).strip()
+                if rest and not rest.startswith('else') and not rest.startswith('.') and not rest.startswith('?'):
+                    last = cpos
+                    break
             b.add(last + 1, '\n' + body_text + '\n')
         elif kind in ('loop', 'loopbody', 'loopend', 'desugar_for'):
             parts = arg.split()
